@@ -1,7 +1,10 @@
 /-
   Driver/C19.lean — stream handlers of C19.
 
-  c19.ops   payload:  src=<hex> rd=<str|one|k3|eofd|file> ty=<t|b> eof=<error|eof_code|reset> drain=<n> | q1 ; q2 ; …
+  c19.ops   (rd=seg: a scripted host reader that GOES ON after an end of file: mk=<ascending offsets of its end-of-file
+            marks> ck=<sizes: a Read at offset o offers ck[o mod #ck] bytes> ed=<0|1: the last bytes of a segment come
+            with io.EOF>; judged by Spec/CursorSeg.lean)
+            payload:  src=<hex> rd=<str|one|k3|eofd|file|seg> ty=<t|b> eof=<error|eof_code|reset> drain=<n> | q1 ; q2 ; …
             optional header field tab=<off>:<nbytes>:<s|S|e>,…  = reads that do not deliver a term, measured on the real
             reader alone: started at byte offset off it pulls nbytes bytes and raises a syntax error on the last rune
             pulled (s) / at the end of the input (S), or reports io.EOF inside a clause (e).
@@ -18,6 +21,7 @@ import PrologVerif.Model.Stream
 import PrologVerif.Model.ClauseScanner
 import PrologVerif.Model.StreamOut
 import PrologVerif.Spec.Cursor
+import PrologVerif.Spec.CursorSeg
 namespace PrologVerif.Driver.C19
 open PrologVerif PrologVerif.Driver PrologVerif.Stream
 
@@ -42,8 +46,17 @@ def kv (ws : List String) (key : String) : Option String :=
     | [k, v] => if k = key then some v else none
     | _ => none
 
-def readerOf (kind : String) (len : Nat) : Option Reader :=
+def natList (t : String) : Option (List Nat) :=
+  ((t.splitOn ",").filter (· ≠ "")).mapM fun w => natOfChars w.toList
+
+def readerOf (ws : List String) (kind : String) (len : Nat) : Option Reader :=
   match kind with
+  | "seg" => do
+    let mk ← natList ((kv ws "mk").getD "")
+    let ck ← natList ((kv ws "ck").getD "")
+    let sizes := if ck.isEmpty then [1] else ck
+    pure { chunk := fun o => sizes.getD (o % sizes.length) 1, eofWithData := kv ws "ed" = some "1",
+           fileSize := none, marks := mk }
   | "str" => some { chunk := fun _ => 4096, eofWithData := false, fileSize := none }
   | "one" => some { chunk := fun _ => 1, eofWithData := false, fileSize := none }
   | "k3" => some { chunk := fun _ => 3, eofWithData := false, fileSize := none }
@@ -87,7 +100,7 @@ def parseCase (payload : String) : Option Case :=
   | [hd, ops] => do
     let ws := words hd
     let src ← (kv ws "src").bind (fun h => hexBytes h.toList)
-    let rd ← (kv ws "rd").bind (fun k => readerOf k src.length)
+    let rd ← (kv ws "rd").bind (fun k => readerOf ws k src.length)
     let typ ← match kv ws "ty" with | some "t" => some StreamType.text | some "b" => some .binary | _ => none
     let act ← match kv ws "eof" with
       | some "error" => some EofAction.error | some "eof_code" => some .eofCode | some "reset" => some .reset | _ => none
@@ -214,10 +227,75 @@ def judgeCase (cs : Case) (impl : String) : String :=
     | _, _, _, _ => "ok"
   go cs.prog outs 0 {}
 
+/-! the same judgement over a source with end-of-file marks (Spec/CursorSeg.lean) -/
+
+def segCursorStr (cu : SegSpec.Cursor) : String := s!"index={cu.idx} eof_delivered={cu.delivered} segment={cu.seg}"
+
+def judgeQuerySeg (sc : SegSpec.SCfg) (tab : Clause.Measured.Table) (qi : Nat) (ops : List Op) (out : String)
+    (cu : SegSpec.Cursor) : Except String SegSpec.Cursor :=
+  let rdr := Clause.Measured.scanner tab true
+  let ws := words out
+  let toks := ws.filter (fun w => !w.startsWith "@")
+  let st := ws.find? (fun w => w.startsWith "@")
+  let rec go : List Op → List String → Nat → SegSpec.Cursor → Except String SegSpec.Cursor
+    | [], [], _, cu => .ok cu
+    | o :: os, w :: rest, j, cu =>
+      if w = "_" then .error s!"query {qi} goal {j} ({opName o}) was skipped without an error before it"
+      else
+        match parseRes w with
+        | none => .error s!"query {qi} goal {j}: unreadable result {w}"
+        | some r =>
+          match SegSpec.check sc rdr o cu r with
+          | none =>
+            let want := match o with
+              | .getChar => resTok (SegSpec.readChar sc true cu).1
+              | .peekChar => resTok (SegSpec.readChar sc false cu).1
+              | .getByte => resTok (SegSpec.readByte sc true cu).1
+              | .peekByte => resTok (SegSpec.readByte sc false cu).1
+              | .readTerm => resTok (SegSpec.readTerm sc rdr cu).1
+              | .propPos => "p" ++ toString cu.idx
+              | _ => s!"a value consistent with the cursor (the current segment ends at {SegSpec.segEnd sc cu})"
+            .error s!"query {qi} goal {j} ({opName o}) delivered {w}, the cursor ({segCursorStr cu}) demands {want}"
+          | some cu' =>
+            if r.isErr then
+              if rest.all (· = "_") ∧ rest.length = os.length then .ok cu'
+              else .error s!"query {qi}: goals after the error of goal {j} were run"
+            else go os rest (j + 1) cu'
+    | _, _, _, _ => .error s!"query {qi}: number of results differs from number of goals"
+  match go ops toks 0 cu with
+  | .error e => .error e
+  | .ok cu' =>
+    match st with
+    | none => .error s!"query {qi}: no state reported"
+    | some st =>
+      match (st.drop 1).toString.splitOn "," with
+      | [p, e, _, _] =>
+        if intOfChars p.toList ≠ some (Int.ofNat cu'.idx) then
+          .error s!"after query {qi}: position {p} but {cu'.idx} bytes were consumed"
+        else
+          match parseRes ("e" ++ e) with
+          | some (.eos ev) =>
+            if SegSpec.eosOk sc cu' ev then .ok cu'
+            else .error s!"after query {qi}: end_of_stream({e}) contradicts the cursor ({segCursorStr cu'}, the current segment ends at {SegSpec.segEnd sc cu'})"
+          | _ => .error s!"after query {qi}: unreadable end_of_stream {e}"
+      | _ => .error s!"query {qi}: unreadable state {st}"
+
+def judgeCaseSeg (cs : Case) (impl : String) : String :=
+  let sc : SegSpec.SCfg := { bytes := cs.cfg.src, typ := cs.cfg.typ, action := cs.cfg.action, marks := cs.cfg.rd.marks }
+  let outs := splitOps impl
+  if outs.length ≠ cs.prog.length then "FAIL number of query outputs differs from number of queries" else
+  let rec go : List (List Op) → List String → Nat → SegSpec.Cursor → String
+    | q :: qs, o :: os, i, cu =>
+      match judgeQuerySeg sc cs.tab i q o cu with
+      | .error e => "FAIL " ++ e
+      | .ok cu' => go qs os (i + 1) cu'
+    | _, _, _, _ => "ok"
+  go cs.prog outs 0 {}
+
 def handler : Handler := fun payload impl =>
   match parseCase payload with
   | none => ("BAD-CASE", "FAIL unparsable case")
-  | some cs => (runModel cs, judgeCase cs impl)
+  | some cs => (runModel cs, if cs.cfg.rd.marks.isEmpty then judgeCase cs impl else judgeCaseSeg cs impl)
 
 /-! ## c19.out -/
 
